@@ -243,3 +243,55 @@ package bitmap
 //@   ensures forall t int32 :: 0 <= t && t < tobit - frombit ==> (v >> uint64(tobit - frombit - 1 - t)) & 1 == ite(t < k, sbit(s, frombit + t), uint64(0))
 //@   assigns nothing
 //@   split frombit&7 0 7
+
+// ---- C15: TailBitmap ----
+
+//@ global reclaimThreshold: reclaimThreshold == 65536
+
+//@ func NewTailBitmap returns (tb)
+//@   requires offset & 63 == 0 && 0 <= offset && offset < 1<<62
+//@   ensures tbInv(tb) && tb.Offset == offset && len(tb.Words) == 0
+//@   assigns nothing
+
+//@ func TailBitmap.Compact
+//@   witness-gen tb = &TailBitmap{Offset: int64(r.Intn(4)) * 64, Words: tb.Words, reclaimed: 0}
+//@   requires tb.Offset & 63 == 0 && 0 <= tb.Offset && tb.Offset < 1<<62 && len(tb.Words) < 1<<40 && tb.Offset + int64(len(tb.Words)) << 6 < 1<<62
+//@   ensures tbInv(tb) && tb.Offset >= old(tb.Offset) && tbEnd(tb) == old(tbEnd(tb))
+//@   ensures forall j int64 :: 0 <= j && j < tbEnd(tb) ==> tbBit(tb, j) == old(tbBit(tb, j))
+//@   ensures forall j int64 :: old(tb.Offset) <= j && j < tb.Offset ==> old(tbBit(tb, j)) == 1
+//@   assigns tb.Offset, tb.Words, tb.reclaimed
+//@   loop 1
+//@     invariant tb.Offset & 63 == 0 && tb.Offset >= old(tb.Offset) && tb.Offset <= old(tbEnd(tb))
+//@     invariant regof(tb.Words) == regof(old(tb.Words)) && offof(tb.Words) == offof(old(tb.Words)) + int((tb.Offset >> 6) - (old(tb.Offset) >> 6))
+//@     invariant len(tb.Words) == len(old(tb.Words)) - int((tb.Offset >> 6) - (old(tb.Offset) >> 6))
+//@     invariant forall k int :: 0 <= k && k < int((tb.Offset >> 6) - (old(tb.Offset) >> 6)) ==> old(tb.Words)[k] == 0xffffffffffffffff
+
+//@ func TailBitmap.Set
+//@   witness-gen tb = &TailBitmap{Offset: int64(r.Intn(4)) * 64, Words: tb.Words, reclaimed: 0}
+//@   witness-gen idx = tb.Offset + int64(r.Intn(64*len(tb.Words)+70)) - 3
+//@   requires tbInv(tb) && 0 <= idx && idx < 1<<45
+//@   ensures tbInv(tb) && tb.Offset >= old(tb.Offset) && tbEnd(tb) >= old(tbEnd(tb)) && tbEnd(tb) > idx
+//@   ensures forall j int64 :: 0 <= j && j < tbEnd(tb) ==> (tbBit(tb, j) == 1 <==> (j < old(tbEnd(tb)) && old(tbBit(tb, j)) == 1) || j == idx)
+//@   ensures forall j int64 :: old(tb.Offset) <= j && j < tb.Offset ==> (j < old(tbEnd(tb)) && old(tbBit(tb, j)) == 1) || j == idx
+//@   assigns tb.Offset, tb.Words, tb.reclaimed, tb.Words[*]
+//@   use shr6_shift(idx, tb.Offset)
+//@   use forall j int64 :: eq_split6(j, idx)
+//@   loop 1
+//@     invariant len(tb.Words) >= len(old(tb.Words)) && (len(tb.Words) == len(old(tb.Words)) || len(tb.Words) - 1 <= int(wordIdx))
+//@     invariant regof(tb.Words) == regof(old(tb.Words)) && offof(tb.Words) == offof(old(tb.Words)) || fresh(tb.Words)
+//@     invariant forall k int :: 0 <= k && k < len(old(tb.Words)) ==> tb.Words[k] == old(tb.Words)[k]
+//@     invariant forall k int :: len(old(tb.Words)) <= k && k < len(tb.Words) ==> tb.Words[k] == 0
+
+//@ func TailBitmap.Get returns (r)
+//@   witness-gen tb = &TailBitmap{Offset: int64(r.Intn(4)) * 64, Words: tb.Words, reclaimed: 0}
+//@   use shr6_shift(idx, tb.Offset)
+//@   requires tbInv(tb) && 0 <= idx && idx < tbEnd(tb)
+//@   ensures r == tbBit(tb, idx) << uint64(idx & 63)
+//@   assigns nothing
+
+//@ func TailBitmap.Get1 returns (r)
+//@   witness-gen tb = &TailBitmap{Offset: int64(r.Intn(4)) * 64, Words: tb.Words, reclaimed: 0}
+//@   use shr6_shift(idx, tb.Offset)
+//@   requires tbInv(tb) && 0 <= idx && idx < tbEnd(tb)
+//@   ensures r == tbBit(tb, idx)
+//@   assigns nothing
